@@ -155,6 +155,7 @@ def limit_histories():
     L = 65536 - (9 + 2 + 9 + 16 + 1)
     out.append([("set", b"a", "i8", b"\x01"), ("set", b"s", "str", b"s" * L), ("set", b"s", "str", b"s" * (L + 1)), ("set", b"b", "i8", b"\x02")])
     out.append([("set", b"x" * 65534, "i8", b"\x01"), ("set", b"y", "i8", b"\x02")])
+    out.append([("set", b"y", "i8", b"\x02"), ("set", b"x" * 65535, "i8", b"\x01"), ("set", b"y", "i8", b"\x03")])   # panics
     return out
 
 
@@ -171,17 +172,30 @@ def to_case(ops, dsconf, builddir):
 
 # ----------------------------------------------------------------------------- Coq side
 
+def cb(b):
+    """Coq term of type bytes; long runs of one byte are not spelled out (coqc's parser overflows its stack on
+    string literals of 100k characters)."""
+    b = bytes(b)
+    if len(b) > 400 and len(set(b[:-1])) == 1:
+        head = "rp %d %d" % (len(b) - 1, b[0])
+        return "(%s ++ [%d])" % (head, b[-1])
+    if len(b) > 2000:      # coqc cannot parse very long string literals
+        return "(" + " ++ ".join('uh "%s"' % b[i:i + 2000].hex() for i in range(0, len(b), 2000)) + ")"
+    return '(uh "%s")' % b.hex()
+
+
 def coq_op(o):
     if o[0] == "del":
-        return 'D "%s"' % o[1].hex()
+        return "Db %s" % cb(o[1])
     v = value_of(o[2], o[3])
     if v is None:
-        return 'WB "%s"' % o[1].hex()
-    return 'W "%s" %d %d %d %s "%s"' % (o[1].hex(), v[0], v[1], v[2], vlib.cNlist(v[3]), v[4].hex())
+        return 'WB "%s"' % o[1].hex()[:200]
+    return "Wb %s %d %d %d %s %s" % (cb(o[1]), v[0], v[1], v[2], vlib.cNlist(v[3]), cb(v[4]))
 
 
 def coq_case(base, ops, gres, gattrs, gform):
-    ga = ";".join('GA "%s" %d %d %d %s "%s"' % (a["name"], a["class"], a["size"], a["bits"], vlib.cNlist(a.get("dims") or []), a["data"])
+    ga = ";".join("GAb %s %d %d %d %s %s" % (cb(bytes.fromhex(a["name"])), a["class"], a["size"], a["bits"],
+                                             vlib.cNlist(a.get("dims") or []), cb(bytes.fromhex(a["data"])))
                   for a in gattrs)
     return "(%d, [%s], %s, [%s], %d)" % (base, ";".join(coq_op(o) for o in ops), vlib.cNlist(gres), ga, gform)
 
@@ -327,6 +341,7 @@ def ops_json(ops):
 
 
 def run_unit(ctx):
+    """see module docstring"""
     H, rng = ctx.harness, ctx.rng
     t0 = time.time()
     builddir = os.path.join(vlib.VERIF, "build")
@@ -346,6 +361,8 @@ def run_unit(ctx):
     for k in range(0, len(histories), 400):
         recs += judge(H, builddir, histories[k:k + 400], confs[k:k + 400])
     violations, hist_branch, n_eval = [], {}, 0
+    known, known_hits = [], {}
+    listed = {k["id"] for k in vlib.known_findings("C02")}
     order_diff = form_diff = base_diff = overflow = 0
     nattr_hist, len_hist, refused = {}, {}, 0
     seen = set()
@@ -368,7 +385,17 @@ def run_unit(ctx):
             base_diff += 1
         oracle = rec["oracle"]
         if oracle:
-            # Go violates the map semantics on this history: shrink it against the oracle and report
+            # Go violates the map semantics on this history.  Two delimited classes are known findings (when listed):
+            kid = None
+            if code & 16:
+                kid = "C02-dense-heap-overflow"          # the model predicts the overflow (state Broken)
+            elif all(f.tag == "panic" for f in oracle) and not (code & 3) and any(len(o[1]) >= 65535 for o in rec["ops"]):
+                kid = "C02-attr-name-65535-panic"        # the model predicts the panic (encode_attr = EncPanic)
+            if kid and kid in listed:
+                known_hits[kid] = known_hits.get(kid, 0) + 1
+                if known_hits[kid] == 1:
+                    known.append("%s re-confirmed: %s" % (kid, oracle[0].what[:160]))
+                continue
             conf = rec["conf"]
             def still_bad(cand, conf=conf):
                 c = to_case(cand, conf, builddir); c["keep"] = False
@@ -378,10 +405,11 @@ def run_unit(ctx):
             c = to_case(small, conf, builddir); c["keep"] = False
             r = vlib.run_harness(H, "hist", [c])[0]
             f = histlib.check_case(c, r) or oracle
-            violations.append(dict(what="C02 unit: attribute history does not behave like a map: %s" % f[0].what,
-                                   failing_input=c, findings=[x.what for x in f][:6],
-                                   implementation=dict(results=r.get("results"), attrs=[o.get("attrs") for o in (r.get("final", {}).get("objects") or []) if o["path"] == "/d"]),
-                                   model_code=code, ops=ops_json(small)))
+            violations.append(dict(what="C02 unit: attribute history does not behave like a map: %s" % f[0].what[:300],
+                                   failing_input=c, findings=[x.what[:300] for x in f][:6], known_class_candidate=kid,
+                                   implementation=dict(results=r.get("results"), attrs=[[dict(a, data=a["data"][:80]) for a in (o.get("attrs") or [])][:12]
+                                                                                        for o in (r.get("final", {}).get("objects") or []) if o["path"] == "/d"]),
+                                   model_code=code, ops=[dict(o, val=o.get("val", "")[:80], name=o["name"][:80]) for o in ops_json(small)][:40]))
         elif code & 16:
             continue        # model left its domain (heap overflow) and the oracle is satisfied: nothing to compare
         elif code & 3 or base_diff and rec["file_base"] != rec["base"]:
@@ -399,7 +427,7 @@ def run_unit(ctx):
         if "ops" in rec:
             samples.append(dict(ops=ops_json(rec["ops"])[:12], n_ops=len(rec["ops"]), go_results=rec.get("go_codes", [])[:12],
                                 n_attrs_after_reopen=len(rec.get("go_attrs", [])), storage={0: "compact", 1: "dense", 2: "?"}[rec.get("go_form", 2)]))
-    return dict(violations=violations, evaluations=n_eval, distinct=len(seen), samples=samples,
+    return dict(violations=violations, known=known, evaluations=n_eval, distinct=len(seen), samples=samples,
                 histories=len(recs), branches=hist_branch, refused_calls=refused,
                 final_attr_count_histogram=dict(sorted(nattr_hist.items())), history_length_histogram=dict(sorted(len_hist.items())),
                 fidelity=dict(listing_order_differs=order_diff, storage_form_differs=form_diff, header_base_differs=base_diff,
